@@ -115,4 +115,174 @@ theorem C19_wire_example :
         (wUuid_uid _ hlen1 _ (by decide)) (wUuid_uid _ hlen2 _ (by decide)) hs
     exact ⟨text, file, hdr, root, rfl, h1, h2, h3, h4⟩
 
+/-! ### witness (c): `ofxget stmtend`, configured accounts -/
+
+theorem exStmtend_ok : (stmtendBytes Ofx.Generated.schema Types.conv (envOf genEnv) exArgs exX).toBool = true := by
+  decide +kernel
+
+/-- **the hypotheses of `C19_wire_configured_stmtend_generated` are jointly satisfiable, and what follows**: for the
+    example command line `ofxget stmtend` prints a text that reads back to a request for exactly the two checking
+    accounts and the credit card (closing statements; the investment account is not asked for) -/
+theorem C19_wire_stmtend_example :
+    ∃ text file hdr root,
+      stmtendBytes Ofx.Generated.schema Types.conv (envOf genEnv) exArgs exX = .ok text ∧
+      Ofx.Codec.encode genEnv.cp1252 .utf8 text = .ok file ∧
+      Ofx.Pipeline.readFile genEnv file = .ok (hdr, root) ∧ hdrVersion hdr = 203 ∧
+      RequestSpec Ofx.Generated.schema exCfg authPlaceholder wDt
+        [.stmtEnd (some "111".toList) (some "CHECKING".toList) exDates.start exDates.end,
+         .stmtEnd (some "222".toList) (some "CHECKING".toList) exDates.start exDates.end,
+         .ccStmtEnd (some "4444".toList) exDates.start exDates.end]
+        (hdrVersion hdr) root := by
+  cases hs : stmtendBytes Ofx.Generated.schema Types.conv (envOf genEnv) exArgs exX with
+  | error e => have := exStmtend_ok; rw [hs] at this; cases this
+  | ok text =>
+    have hlen1 : genEnv.p1.newLen = some 36 := by decide +kernel
+    have hlen2 : genEnv.p2.newLen = some 36 := by decide +kernel
+    obtain ⟨file, hdr, root, h1, h2, h3, h4⟩ :=
+      C19_wire_configured_stmtend_generated exArgs exX exAccounts (.bool false) (by decide +kernel) rfl
+        ⟨by decide +kernel, by decide +kernel, by decide +kernel, by decide +kernel, by decide +kernel,
+          by decide +kernel⟩
+        exCfg exCfg_ok authPlaceholder exPw_ok exDates exDates_ok rfl
+        (by decide +kernel) (by decide +kernel) (by decide +kernel) exDates_wire
+        ⟨by decide +kernel, rfl, by decide +kernel, by decide +kernel, by decide +kernel⟩
+        wUuid_inj (by intro i; simp [exX, wUuid]) wUuid_wire
+        (wUuid_uid _ hlen1 _ (by decide +kernel)) (wUuid_uid _ hlen2 _ (by decide +kernel)) hs
+    exact ⟨text, file, hdr, root, rfl, h1, h2, h3, h4⟩
+
+/-! ### witness (b): `--all` with a non-empty account-information response -/
+
+/-- the command line: `--all`, a start date, a password (not a dry run: the ACCTINFORQ is really sent) -/
+def allCli : Map :=
+  [("url".toList, .str "https://bank.example/ofx".toList), ("user".toList, .str "bob".toList),
+   ("all".toList, .bool true), ("password".toList, .str "pw".toList), ("dtstart".toList, .str "20200101".toList)]
+
+def allRest : Chain := [[], Ofx.Generated.ofxgetTables.defaults]
+
+/-- the response: an ACTIVE checking account, a PEND savings account, an ACTIVE credit card -/
+def allInfos : List AcctInfo :=
+  [.bank "111000614".toList "C1".toList "CHECKING".toList "ACTIVE".toList,
+   .bank "111000614".toList "S1".toList "SAVINGS".toList "PEND".toList,
+   .cc "4444".toList "ACTIVE".toList]
+
+def allX : Ext := ⟨.ok allInfos, [], wUuid, wDt⟩
+
+/-- `init_client` after discovery: the bank id is the response's -/
+def allCfg : Cfg :=
+  { url := "https://bank.example/ofx".toList, userid := "bob".toList, clientuid := none, org := none, fid := none,
+    version := 203, appid := "QWIN".toList, appver := "2700".toList, language := "ENG".toList, prettyprint := false,
+    closeElements := true, bankid := some "111000614".toList, brokerid := none }
+
+def allDates : Dates DT := ⟨some ⟨2020, 1, 1, 0, 0, 0, 0, some ⟨0, some "UTC".toList⟩⟩, none, none⟩
+
+/-- the plan of the run (`request_stmt` up to the call of the client) -/
+def allPlan : Plan DT :=
+  match requestStmt dateConvert (allCli :: allRest) allX.acct with
+  | .ok p => p
+  | .error _ => ⟨[], [], []⟩
+
+/-- the run gets as far as the request text, and asks for exactly two accounts (the PEND savings account is not one) -/
+theorem allStmt_ok :
+    (stmtBytes Ofx.Generated.schema Types.conv (envOf genEnv) (allCli :: allRest) allX).toBool = true ∧
+    (requestStmt dateConvert (allCli :: allRest) allX.acct).toBool = true ∧ allPlan.requests.length = 2 := by
+  decide +kernel
+
+theorem allPlan_ok : requestStmt dateConvert (allCli :: allRest) allX.acct = .ok allPlan := by
+  unfold allPlan
+  cases h : requestStmt dateConvert (allCli :: allRest) allX.acct with
+  | error e => have := allStmt_ok.2.1; rw [h] at this; cases this
+  | ok p => rfl
+
+theorem allInfos_valid : ValidInfos allInfos := by
+  intro inf hinf
+  simp only [allInfos, List.mem_cons, List.mem_nil_iff, or_false] at hinf
+  rcases hinf with rfl | rfl | rfl
+  · show "CHECKING".toList ∈ validAcctTypes
+    decide
+  · show "SAVINGS".toList ∈ validAcctTypes
+    decide
+  · trivial
+
+/-- **the hypotheses of `C19_wire_all_generated` are jointly satisfiable, and what follows**: the text `ofxget stmt
+    --all` posts reads back to a request whose accounts are exactly the two ACTIVE ones of the response -/
+theorem C19_wire_all_example :
+    ∃ text reqs file hdr root,
+      stmtBytes Ofx.Generated.schema Types.conv (envOf genEnv) (allCli :: allRest) allX = .ok text ∧
+      toReqs allPlan.requests = .ok reqs ∧ reqs.length = 2 ∧
+      (reqs.map reqKey).Perm [some (.bank "C1".toList "CHECKING".toList), some (.cc "4444".toList)] ∧
+      Ofx.Codec.encode genEnv.cp1252 .utf8 text = .ok file ∧
+      Ofx.Pipeline.readFile genEnv file = .ok (hdr, root) ∧ hdrVersion hdr = 203 ∧
+      RequestSpec Ofx.Generated.schema allCfg "pw".toList wDt reqs (hdrVersion hdr) root := by
+  cases hs : stmtBytes Ofx.Generated.schema Types.conv (envOf genEnv) (allCli :: allRest) allX with
+  | error e => have := allStmt_ok.1; rw [hs] at this; cases this
+  | ok text =>
+    have hlen1 : genEnv.p1.newLen = some 36 := by decide +kernel
+    have hlen2 : genEnv.p2.newLen = some 36 := by decide +kernel
+    have hlen : allPlan.requests.length = 2 := allStmt_ok.2.2
+    obtain ⟨reqs, file, hdr, root, h0, hperm, h1, h2, h3, h4⟩ :=
+      C19_wire_all_generated allCli allRest allInfos allX (.bool true) rfl (by decide +kernel) rfl
+        (by decide +kernel) allInfos_valid (by unfold NoFallback; decide +kernel)
+        allPlan allPlan_ok allCfg (by rfl) "pw".toList (by rfl) allDates (by rfl) rfl
+        (by decide +kernel) (by decide +kernel) (by decide +kernel)
+        (by
+          intro d hd
+          have hd' : d = ⟨2020, 1, 1, 0, 0, 0, 0, some ⟨0, some "UTC".toList⟩⟩ := by
+            simpa [Dates.all, allDates] using hd
+          subst hd'
+          exact ⟨by decide +kernel, rfl, by decide +kernel, by decide +kernel, by decide +kernel⟩)
+        ⟨by decide +kernel, rfl, by decide +kernel, by decide +kernel, by decide +kernel⟩
+        wUuid_inj (by intro i; simp [allX, wUuid]) wUuid_wire
+        (by rw [hlen]; exact wUuid_uid _ hlen1 _ (by decide)) (by rw [hlen]; exact wUuid_uid _ hlen2 _ (by decide)) hs
+    refine ⟨text, reqs, file, hdr, root, rfl, h0, ?_, hperm, h1, h2, h3, h4⟩
+    rw [toReqs_length _ _ h0, hlen]
+
+/-! ### witness (b'): `ofxget stmtend --all` on the same response -/
+
+def allPlanEnd : Plan DT :=
+  match requestStmtend dateConvert (allCli :: allRest) allX.acct with
+  | .ok p => p
+  | .error _ => ⟨[], [], []⟩
+
+theorem allStmtend_ok :
+    (stmtendBytes Ofx.Generated.schema Types.conv (envOf genEnv) (allCli :: allRest) allX).toBool = true ∧
+    (requestStmtend dateConvert (allCli :: allRest) allX.acct).toBool = true ∧ allPlanEnd.requests.length = 2 := by
+  decide +kernel
+
+theorem allPlanEnd_ok : requestStmtend dateConvert (allCli :: allRest) allX.acct = .ok allPlanEnd := by
+  unfold allPlanEnd
+  cases h : requestStmtend dateConvert (allCli :: allRest) allX.acct with
+  | error e => have := allStmtend_ok.2.1; rw [h] at this; cases this
+  | ok p => rfl
+
+/-- **the hypotheses of `C19_wire_all_stmtend_generated` are jointly satisfiable, and what follows** -/
+theorem C19_wire_all_stmtend_example :
+    ∃ text reqs file hdr root,
+      stmtendBytes Ofx.Generated.schema Types.conv (envOf genEnv) (allCli :: allRest) allX = .ok text ∧
+      toReqs allPlanEnd.requests = .ok reqs ∧ reqs.length = 2 ∧
+      (reqs.map reqKey).Perm [some (.bank "C1".toList "CHECKING".toList), some (.cc "4444".toList)] ∧
+      Ofx.Codec.encode genEnv.cp1252 .utf8 text = .ok file ∧
+      Ofx.Pipeline.readFile genEnv file = .ok (hdr, root) ∧ hdrVersion hdr = 203 ∧
+      RequestSpec Ofx.Generated.schema allCfg "pw".toList wDt reqs (hdrVersion hdr) root := by
+  cases hs : stmtendBytes Ofx.Generated.schema Types.conv (envOf genEnv) (allCli :: allRest) allX with
+  | error e => have := allStmtend_ok.1; rw [hs] at this; cases this
+  | ok text =>
+    have hlen1 : genEnv.p1.newLen = some 36 := by decide +kernel
+    have hlen2 : genEnv.p2.newLen = some 36 := by decide +kernel
+    have hlen : allPlanEnd.requests.length = 2 := allStmtend_ok.2.2
+    obtain ⟨reqs, file, hdr, root, h0, hperm, h1, h2, h3, h4⟩ :=
+      C19_wire_all_stmtend_generated allCli allRest allInfos allX (.bool true) rfl (by decide +kernel) rfl
+        (by decide +kernel) allInfos_valid (by unfold NoFallbackClosing; decide +kernel)
+        allPlanEnd allPlanEnd_ok allCfg (by rfl) "pw".toList (by rfl) allDates (by rfl) rfl
+        (by decide +kernel) (by decide +kernel) (by decide +kernel)
+        (by
+          intro d hd
+          have hd' : d = ⟨2020, 1, 1, 0, 0, 0, 0, some ⟨0, some "UTC".toList⟩⟩ := by
+            simpa [Dates.all, allDates] using hd
+          subst hd'
+          exact ⟨by decide +kernel, rfl, by decide +kernel, by decide +kernel, by decide +kernel⟩)
+        ⟨by decide +kernel, rfl, by decide +kernel, by decide +kernel, by decide +kernel⟩
+        wUuid_inj (by intro i; simp [allX, wUuid]) wUuid_wire
+        (by rw [hlen]; exact wUuid_uid _ hlen1 _ (by decide)) (by rw [hlen]; exact wUuid_uid _ hlen2 _ (by decide)) hs
+    refine ⟨text, reqs, file, hdr, root, rfl, h0, ?_, hperm, h1, h2, h3, h4⟩
+    rw [toReqs_length _ _ h0, hlen]
+
 end Ofx.Gen
